@@ -89,7 +89,7 @@ impl Seek for Src {
     fn seek(&mut self, from: SeekFrom) -> io::Result<u64> {
         let (r, _) = pop(&self.sh).unwrap_or(("ok".into(), 0));
         match (r.as_str(), self.resolve(from)) {
-            ("ok", Some(t)) => { self.cur = t; note(&self.sh, "seek", Self::mode_code(from), "ok", 0); Ok(t) }
+            ("ok", Some(t)) => { self.cur = t; note(&self.sh, "seek", Self::mode_code(from), "ok", t.min(1 << 30) as usize); Ok(t) }      // k = the new offset (capped)
             ("ok", None) => { note(&self.sh, "seek", Self::mode_code(from), "inval", 0); Err(io::Error::new(io::ErrorKind::InvalidInput, "seek before start")) }
             (r, _) => { note(&self.sh, "seek", Self::mode_code(from), r, 0); Err(err_of(r)) }
         }
@@ -227,6 +227,7 @@ where T: Read + BufRead + Write + Seek + AsyncRead + AsyncWrite + AsyncBufRead +
         "flush" => (r_unit(Write::flush(o)), vec![]),
         "seek" => (r_u64(Seek::seek(o, seek_from(op))), vec![]),
         "rewind" => (r_unit(Seek::rewind(o)), vec![]),
+        "seek_relative" => (r_unit(Seek::seek_relative(o, op["d"].as_i64().unwrap_or(0))), vec![]),
         "stream_position" => (r_u64(Seek::stream_position(o)), vec![]),
         // the caller's ReadBuf already holds one byte: only the newly filled part counts
         "poll_read" => { let mut b = vec![0u8; n + 1]; let (r, k) = { let mut rb = ReadBuf::new(&mut b); rb.put_slice(b"#"); let r = Pin::new(&mut *o).poll_read(&mut cx, &mut rb); (r, rb.filled().len() - 1) };
